@@ -27,7 +27,7 @@ C13_FEATS = ['conic', 'asphere', 'poly', 'cheby', 'tilt', 'decenter',
              'mirror', 'glass', 'abbe', 'absorb', 'finite_obj', 'vignette',
              'coat_simple', 'coat_fresnel', 'polarized', 'aperture',
              'multi_wl', 'fno', 'na', 'obj_height', 'planes', 'stop_any',
-             'glass_str', 'units']
+             'glass_str', 'units', 'telecentric']
 
 PARAXIAL = ['f1', 'f2', 'F1', 'F2', 'P1', 'P2', 'N1', 'N2', 'EPL', 'EPD',
             'XPL', 'XPD', 'FNO', 'magnification', 'invariant',
